@@ -1,7 +1,7 @@
 """Hand-made mutation trials for C04/C05 (scratch worktree /tmp/r-exec1 with the proposed fixes applied).
 usage: exec1_mutate.py [M1 M2 ...]"""
 import subprocess, sys, re, os, json
-R = '/tmp/r-exec1'
+R = os.environ.get('EXEC1_R', '/tmp/r-exec1')
 W = os.path.dirname(os.path.dirname(os.path.dirname(os.path.abspath(__file__))))
 FIX = '/tmp/exec1-fix.patch'
 CF = "src/py_gql/utilities/collect_fields.py"
@@ -46,6 +46,10 @@ MUTS = [
  ("S9", "seeded class: _same_arguments drops explicit null literals before comparing", "src/py_gql/validation/rules/overlapping_fields_can_be_merged.py", "    if len(args_1) != len(args_2):\n        return False\n\n    s1 = sorted(args_1", "    args_1 = [a for a in args_1 if not isinstance(a.value, _ast.NullValue)]\n    args_2 = [a for a in args_2 if not isinstance(a.value, _ast.NullValue)]\n    if len(args_1) != len(args_2):\n        return False\n\n    s1 = sorted(args_1"),
  ("S10", "seeded class: fragment-pair memo looked up under the sorted key but stored under the unsorted one", "src/py_gql/validation/rules/overlapping_fields_can_be_merged.py", "    ctx.compared_fragment_pairs.add(cache_key)  # type: ignore", "    ctx.compared_fragment_pairs.add(((fragment_1, fragment_2), mutually_exclusive))  # type: ignore"),
  ("S11", "seeded class: grouped-fields cache keyed on id(selections); single-node keys hand over the document's own list, several nodes a TEMPORARY merged list (id reused after GC)", "src/py_gql/execution/wrappers.py", "        cache_key = parent_type.name, tuple(selections)\n", "        cache_key = parent_type.name, id(selections)\n"),
+ ("S12", "seeded class: is_iterable by isinstance(collections.abc.Iterable) (sequence-protocol iterables rejected)", "src/py_gql/_utils.py", "    try:\n        iter(value)\n    except TypeError:\n        return False\n    else:\n        return strings or not isinstance(value, (str, bytes))", "    import collections.abc as _abc\n    if not isinstance(value, _abc.Iterable):\n        return False\n    return strings or not isinstance(value, (str, bytes))"),
+ ("S12b", "variant: is_iterable iterates strings at list positions", "src/py_gql/_utils.py", "        return strings or not isinstance(value, (str, bytes))", "        return True"),
+ ("S13", "seeded class: add_error keeps a path already set on the error object", "src/py_gql/execution/wrappers.py", "        err.path = path if path is not None else err.path\n", "        if path is not None and not err.path:\n            err.path = path\n"),
+ ("S14", "seeded class: NoFragmentCycles prunes every fragment reached from an acyclic search root", "src/py_gql/validation/rules/__init__.py", "        flat_spreads = [(outer, _search(outer)) for outer in self._spreads]\n", "        flat_spreads = []\n        explored = set()\n        for outer in self._spreads:\n            if outer in explored:\n                continue\n            reach = _search(outer)\n            flat_spreads.append((outer, reach))\n            if outer not in reach:\n                explored.update(reach)\n"),
  ("S3", "seeded class: _find_conflict tests isinstance(parent_1, ObjectType) twice", "src/py_gql/validation/rules/overlapping_fields_can_be_merged.py", "        and isinstance(parent_1, ObjectType)\n        and isinstance(parent_2, ObjectType)", "        and isinstance(parent_1, ObjectType)\n        and isinstance(parent_1, ObjectType)"),
 ]
 
